@@ -500,6 +500,9 @@ func newSchemaType(spec *specification.Schema, components Componenter, cfg Confi
 				}
 				imports = append(imports, ims...)
 				s.Fields = append(s.Fields, st.Fields...)
+				if st.AdditionalProperties != nil {
+					s.AdditionalProperties = st.AdditionalProperties
+				}
 			} else {
 				return nil, nil, fmt.Errorf("allOf: %d-th element: wrong schema type: only type 'object' is supported: object type: %q", i, schema.Kind())
 			}
